@@ -81,6 +81,7 @@ OPS = [
     ("dagprint",       6,  0),   # get_logic (3) + typeso + fvo + printer
     ("reparse",        3,  3),   # second environment: every node created and type-checked once
     ("reparse-interactive", 3, 3),   # the parser flavour SmtLibSolver keeps alive (reads the stream lazily)
+    ("reparse-reprint", 9, 3),       # parse the text, then serialise the parsed script again in DAG form
 ]
 OPS_C = {o[0]: o[1] for o in OPS}
 OPS_R = {o[0]: o[2] for o in OPS}
@@ -362,6 +363,15 @@ def run_op(name, b):
         smtlibscript_from_formula(F).serialize(buf, daggify=True)
         b.text = buf.getvalue()
         return len(b.text)
+    if name == "reparse-reprint":
+        from pysmt.smtlib.parser import SmtLibParser
+        env2 = Environment()
+        script = SmtLibParser(env2).get_script(io.StringIO(b.text))
+        out = io.StringIO()
+        script.serialize(out, daggify=True)
+        b.reprinted = len(out.getvalue())
+        b.parsed_nodes = dag_nodes(script.get_last_formula(env2.formula_manager))
+        return script
     if name in ("reparse", "reparse-interactive"):
         from pysmt.smtlib.parser import SmtLibParser
         env2 = Environment()
@@ -532,6 +542,8 @@ def case_ops(opname, family, n, ops, res, part, profile, deep):
                     % (cnt["create"], N, OPS_R[op], K))
             if op == "dagprint" and len(b.text) > TEXT_PER_NODE * N + 1000:
                 bad("lin-text", op, "%d characters of text for N=%d distinct nodes" % (len(b.text), N))
+            if op == "reparse-reprint" and b.reprinted > 2 * TEXT_PER_NODE * N + 2000:
+                bad("lin-text", op, "%d characters for the re-serialised script, N=%d distinct nodes" % (b.reprinted, N))
             if op.startswith("reparse"):
                 if cnt["atoms"] > 6 * N + K or cnt["getexpr"] > 2 * N + K:
                     bad("lin-parse", op, "%d atoms / %d get_expression calls for N=%d" % (cnt["atoms"], cnt["getexpr"], N))
